@@ -439,6 +439,8 @@ def _entries():
         return call
     E("BinaryAUROC.update", auroc_cls(M.BinaryAUROC), r_w, task_bases(wname="weight"), v_tasks_weight, "binary_auroc")
     E("WindowedBinaryAUROC.update", auroc_cls(M.WindowedBinaryAUROC, max_num_samples=5), r_w, task_bases(wname="weight"), v_tasks_weight, "binary_auroc")
+    # a window SMALLER than the batches: whatever update() does to fit a batch into the window must come after validation
+    E("WindowedBinaryAUROC[window=2].update", auroc_cls(M.WindowedBinaryAUROC, max_num_samples=2), r_w, task_bases(wname="weight"), v_tasks_weight, "binary_auroc")
     both("binary_auprc", "BinaryAUPRC", r_bin, task_bases(), v_tasks, "binary_auprc")
     both("binary_binned_auroc", "BinaryBinnedAUROC", r_bin, task_bases(base_cfg={"threshold": 3}), v_tasks1, "binary_binned_auroc")
     both("binary_binned_auprc", "BinaryBinnedAUPRC", r_bin, task_bases(base_cfg={"threshold": 3}), v_tasks, "binary_binned_auprc")
@@ -849,7 +851,9 @@ def judge(rep: Report, pending: list[Outcome], spy: Spy):
             rep.count("contract-table:lean-valid-agrees" if lean_valid[idx] == o.valid else "contract-table:LEAN-VALID-DISAGREES")
             if lean_valid[idx] != o.valid:
                 rep.broke(f"valid-oracle:{name}", f"Python contract table says valid={o.valid}, Lean Valid_{o.entry.stem} says {lean_valid[idx]} on {shape_str(o.shapes)} cfg={o.cfg}", payload(o, "valid-oracle"))
-                continue
+                # no `continue`: the Lean side is evaluated on what the CHECK HELPER was handed (an update() that reshapes or
+                # clips its arguments before validating shows exactly as this disagreement); the property is judged on the
+                # shapes of the actual call by the contract table below
         accepted_by_check = bool(o.recs) and all(r["real"] == "ok" for r in o.recs)
         gap = lean_gap.get(idx)
         if idx in lean_gap and idx in lean_valid and accepted_by_check and not o.valid:
